@@ -26,6 +26,7 @@
 #include <nop/types/optional.h>
 #include <nop/types/result.h>
 #include <nop/types/variant.h>
+#include <nop/types/handle.h>
 
 struct Ctx {
   std::string mode;
@@ -798,6 +799,160 @@ static void mode_life(Ctx& c, const std::string& which) {
   }
 }
 
+// ---- UniqueHandle over a counting policy (C15) ---------------------------------------------------
+namespace uh {
+struct Books {
+  std::vector<long> closed, released;
+  long next = 0;
+  void reset() { closed.clear(); released.clear(); next = 0; }
+};
+static Books bk;
+struct CountingPolicy {
+  using Type = int;
+  static constexpr int Default() { return -1; }
+  static bool IsValid(const int& v) { return v >= 0; }
+  static void Close(int* v) { if (IsValid(*v)) bk.closed.push_back(*v); *v = -1; }
+  static int Release(int* v) { int t = *v; *v = -1; if (t >= 0) bk.released.push_back(t); return t; }
+  static constexpr std::uint64_t HandleType() { return 5; }
+};
+using UH = nop::UniqueHandle<CountingPolicy>;
+constexpr int kSlots = 3;
+alignas(16) static unsigned char buf[kSlots][32];
+static UH* at(int v) { return reinterpret_cast<UH*>(buf[v]); }
+
+struct Op { std::string name; int v = 0, src = 0;
+  std::string tok() const { return (name == "mC" || name == "mA") ? name + "." + std::to_string(v) + "." + std::to_string(src) : name + "." + std::to_string(v); } };
+
+struct Runner {
+  Ctx& c;
+  int k;
+  bool exists[kSlots];
+  std::vector<std::string> toks, obs;
+  void begin() { bk.reset(); for (bool& e : exists) e = false; toks.clear(); obs.clear(); std::memset(buf, 0xA5, sizeof(buf)); }
+  std::string exec(const Op& o) {
+    UH* p = at(o.v);
+    if (o.name == "mkE") { new (p) UH(); exists[o.v] = true; return std::to_string(p->get()); }
+    if (o.name == "mkV") { new (p) UH(static_cast<int>(bk.next++)); exists[o.v] = true; return std::to_string(p->get()); }
+    if (o.name == "mC") { new (p) UH(std::move(*at(o.src))); exists[o.v] = true; return std::to_string(p->get()); }
+    if (o.name == "mA") { *p = std::move(*at(o.src)); return std::to_string(p->get()); }
+    if (o.name == "cl") { p->close(); return std::to_string(p->get()); }
+    if (o.name == "rl") { int r = p->release(); if (p->get() != -1) fail("release-left-a-value"); return std::to_string(r); }
+    if (o.name == "del") { p->~UH(); std::memset(buf[o.v], 0xA5, sizeof(buf[o.v])); exists[o.v] = false; return "-"; }
+    if (o.name == "get") { if (static_cast<bool>(*p) != (p->get() >= 0)) fail("bool-disagrees-with-get"); return std::to_string(p->get()); }
+    return "?";
+  }
+  std::string history() const { std::string m; for (auto& t : toks) { m += ' '; m += t; } return m; }
+  void fail(const std::string& what) { c.line('X', "C15 " + what + " after:" + history()); }
+  void invariant() {
+    auto count = [](const std::vector<long>& l, long x) { long n = 0; for (long y : l) n += y == x; return n; };
+    for (long x = 0; x < bk.next; x++) {
+      long owners = 0;
+      for (int v = 0; v < k; v++) if (exists[v] && at(v)->get() == x) owners++;
+      const long cl = count(bk.closed, x), rl = count(bk.released, x);
+      if (cl > 1) { fail("resource-closed-twice"); return; }
+      if (owners > 1) { fail("resource-owned-twice"); return; }
+      if (cl && rl) { fail("released-resource-closed"); return; }
+      if (cl && owners) { fail("owned-resource-already-closed"); return; }
+      if (rl && owners) { fail("released-resource-still-owned"); return; }
+      if (!cl && !rl && !owners) { fail("resource-lost-without-close"); return; }
+    }
+  }
+  void apply(const Op& o) {
+    if (toks.empty()) g_current = "uh " + std::to_string(k);
+    g_current += ' '; g_current += o.tok();
+    toks.push_back(o.tok());
+    const bool closing = (o.name == "mA" && o.v != o.src) || o.name == "cl" || o.name == "del";
+    const int owned_before = (closing && exists[o.v]) ? at(o.v)->get() : -1;
+    const int src_before = ((o.name == "mA" || o.name == "mC") && o.v != o.src) ? at(o.src)->get() : -1;
+    obs.push_back(exec(o));
+    // closes what it owns on destruction, move-assignment over it, or close() - at that point
+    if (owned_before >= 0) {
+      long n = 0; for (long y : bk.closed) n += y == owned_before;
+      if (n != 1) fail("owned-resource-not-closed-by-" + o.name);
+    }
+    if ((o.name == "mA" || o.name == "mC") && o.v != o.src) {
+      if (at(o.v)->get() != src_before) fail("move-did-not-transfer-the-resource");
+      if (at(o.src)->get() != -1) fail("moved-from-handle-not-empty");
+    }
+    invariant();
+  }
+  void alphabet(std::vector<Op>& out) {
+    for (int v = 0; v < k; v++) {
+      if (!exists[v]) {
+        out.push_back(Op{"mkE", v}); out.push_back(Op{"mkV", v});
+        for (int s = 0; s < k; s++) if (s != v && exists[s]) out.push_back(Op{"mC", v, s});
+      } else {
+        for (int s = 0; s < k; s++) if (exists[s]) out.push_back(Op{"mA", v, s});
+        out.push_back(Op{"cl", v}); out.push_back(Op{"rl", v}); out.push_back(Op{"get", v}); out.push_back(Op{"del", v});
+      }
+    }
+  }
+  void finish() {
+    std::string m = "uh " + std::to_string(k) + history();
+    std::string i;
+    for (std::size_t j = 0; j < obs.size(); j++) { if (j) i += ' '; i += obs[j]; }
+    i += " |";
+    for (int v = 0; v < k; v++) { i += ' '; i += exists[v] ? std::to_string(at(v)->get()) : std::string("-"); }
+    auto join = [](const std::vector<long>& l) { std::string s; for (long x : l) { if (!s.empty()) s += ','; s += std::to_string(x); } return s.empty() ? std::string("-") : s; };
+    i += " | closed=" + join(bk.closed) + " released=" + join(bk.released) + " next=" + std::to_string(bk.next);
+    c.line('M', m);
+    c.line('I', i);
+    for (int v = 0; v < k; v++) if (exists[v]) { at(v)->~UH(); exists[v] = false; }
+    invariant();   // with no object left: every resource closed exactly once or released
+    c.stat("uh histories");
+    c.stat("uh operations", static_cast<long long>(toks.size()));
+  }
+  long long counter = 0;
+  void exhaustive(std::vector<Op>& prefix, int depth) {
+    if (static_cast<int>(prefix.size()) == depth) {
+      if (counter++ % c.nshard != c.shard) return;
+      begin();
+      for (auto& o : prefix) apply(o);
+      finish();
+      return;
+    }
+    begin();
+    for (auto& o : prefix) exec(o);
+    std::vector<Op> next;
+    alphabet(next);
+    for (int v = 0; v < k; v++) if (exists[v]) { at(v)->~UH(); exists[v] = false; }
+    for (auto& o : next) { prefix.push_back(o); exhaustive(prefix, depth); prefix.pop_back(); }
+  }
+  void random(Rng& r, int len) {
+    begin();
+    for (int j = 0; j < len; j++) {
+      std::vector<Op> next;
+      alphabet(next);
+      Op o;
+      for (int tries = 0; tries < 4; tries++) {
+        o = next[r.below(next.size())];
+        if ((o.name == "del" || o.name == "cl" || o.name == "rl") && !r.chance(30)) continue;
+        break;
+      }
+      apply(o);
+    }
+    finish();
+  }
+};
+}  // namespace uh
+
+static void mode_uh(Ctx& c) {
+  {
+    uh::Runner r{c, 2};
+    std::vector<uh::Op> prefix;
+    r.exhaustive(prefix, c.thorough ? 6 : 5);
+  }
+  {
+    uh::Runner r{c, 3};
+    std::vector<uh::Op> prefix;
+    r.exhaustive(prefix, c.thorough ? 5 : 4);
+  }
+  Rng rng(c.seed * 1000003ULL + c.shard * 7919ULL + 15);
+  uh::Runner r{c, uh::kSlots};
+  const int n = (c.thorough ? 60000 : 3000) / static_cast<int>(c.nshard) + 1;
+  for (int j = 0; j < n; j++) r.random(rng, 1 + static_cast<int>(rng.below(80)));
+}
+
 // ---- the 18 comparison operators ---------------------------------------------------------------
 template <typename A, typename B>
 static void cmp_six(Ctx& c, const char* pre, const std::string& sa, const std::string& sb, const A& a, const B& b) {
@@ -849,6 +1004,7 @@ int main(int argc, char** argv) {
   __sanitizer_set_death_callback(on_death);
   if (c.mode == "life") mode_life(c, which);
   else if (c.mode == "cmp") { if (c.shard == 0) mode_cmp(c); }
+  else if (c.mode == "uh") mode_uh(c);
   else { std::fprintf(stderr, "unknown mode\n"); return 2; }
   for (auto& kv : c.stats) c.line('S', kv.first + " " + std::to_string(kv.second));
   c.flush();
